@@ -24,7 +24,11 @@ def run(chk):
         "interpretation of its MIR (P-ABS, rules/tinfo.py) for every opcode except `??`/`==`/`!=`/`|` and every pair of operand kinds from a 16-element family; "
         "for every (self variant, rhs variant) inside the operand kinds for which the operator's run-time method can return Ok, the Value variant it returns "
         "(read from the method's MIR with P-VAR: From/Into conversions, float_result, operands handed back) must be inside the result kind. For `||` the "
-        "value try_or's closure yields is the right operand (C09 R09a/b), for `&&` a null left operand yields a boolean. Undecided: Kind::insert/at_path/"
+        "value try_or's closure yields is the right operand (C09 R09a/b), for `&&` a null left operand yields a boolean. R01f state versions: the same "
+        "interpreter labels every TypeState with the set of child expressions whose effects it is guaranteed to contain (clone keeps the label, a child's "
+        "type_info/apply_type_info adds the child, TypeState::merge intersects); the state returned by Op::type_info and IfStatement::type_info must contain "
+        "every child that is always evaluated (both operands of non-short-circuit operators, the left operand, the predicate) and must not contain a "
+        "child that is only conditionally evaluated (the right operand of `&&`/`||`/`??` unless the left kind makes it certain, either branch of `if`). Undecided: Kind::insert/at_path/"
         "merge (collection kinds: all objects and arrays are one abstract kind here), closure typing (upstream TODO #13782), stdlib type_defs beyond C03, "
         "operators on compile-time constants.")
     chk.assumptions += ["FunctionExpressionAdapter::type_info returns the incoming state unchanged (read once; re-checked by R01b's adapter clause)"]
@@ -76,6 +80,7 @@ def run(chk):
                           "literal %s evaluates to %s but is typed %s (expected %s / %s)" % (var, got.get("value"), got.get("type"), want_v, want_t), detail=d)
 
     rule_r01e(chk)
+    rule_r01f(chk)
 
 
 def rule_r01e(chk):
@@ -143,3 +148,133 @@ def rule_r01e(chk):
             chk.violation(rid, "src/compiler/expression/op.rs", OP_TYPE_INFO, "opcode %s result kind for (%s, %s)" % (opc, "|".join(kl), "|".join(kr)),
                           "`%s` with operand kinds (%s, %s) is typed %s, but for operands (%s, %s) %s returns a %s: the value is outside its compile-time type "
                           "(%d operand configurations affected)" % (sym, "|".join(kl), "|".join(kr), "|".join(tk), a, c, mname, v.lower(), len(bad)), detail=d)
+
+
+IF_TYPE_INFO = "<compiler::expression::if_statement::IfStatement as compiler::expression::Expression>::type_info"
+
+
+def rule_r01f(chk):
+    import tinfo
+    from p_c02 import OP_TYPE_INFO, kind_family
+    facts = chk.facts
+    rid = "R01f"
+    chk.rule(rid, "the TypeState returned by Op/IfStatement::type_info contains the effects of every always-evaluated child and of no conditionally evaluated one", floor=19)
+    sym = {"Add": "+", "Sub": "-", "Mul": "*", "Div": "/", "Gt": ">", "Ge": ">=", "Lt": "<", "Le": "<=", "And": "&&", "Or": "||", "Eq": "==", "Ne": "!=",
+           "Merge": "|", "Err": "??"}
+    both = {"Add", "Sub", "Mul", "Div", "Gt", "Ge", "Lt", "Le", "Eq", "Ne", "Merge"}
+    fam = kind_family()
+    if not facts.has(OP_TYPE_INFO):
+        chk.fail_closed(rid, "anchor not found: %s" % OP_TYPE_INFO)
+    else:
+        for opc in sorted(sym):
+            missing, extra = [], []
+            n = 0
+            undecided = None
+            for kl in fam:
+                for kr in fam[:10]:
+                    selfv = tinfo.Enum("compiler::expression::op::Op", None, {"lhs": tinfo.boxed(tinfo.Expr("lhs")), "rhs": tinfo.boxed(tinfo.Expr("rhs")),
+                                                                               "opcode": tinfo.Enum("parser::ast::Opcode", opc)})
+                    try:
+                        td, it = tinfo.evaluate_type_info(facts, OP_TYPE_INFO, selfv, {"lhs": tinfo.TD(kl), "rhs": tinfo.TD(kr)})
+                    except tinfo.Undecided as e:
+                        undecided = str(e)
+                        break
+                    n += 1
+                    st = it.final_state
+                    if not isinstance(st, tinfo.ST):
+                        undecided = "returned state is not tracked (%r)" % (st,)
+                        break
+                    need = {"lhs", "rhs"} if opc in both else {"lhs"}
+                    if opc == "Or" and kl == frozenset(["null"]):
+                        allowed = {"lhs", "rhs"}
+                    elif opc in both:
+                        allowed = {"lhs", "rhs"}
+                    else:
+                        allowed = {"lhs"}
+                    if not need <= st.label:
+                        missing.append((len(kl) + len(kr), sorted(kl), sorted(kr), sorted(need - st.label)))
+                    if not st.label <= allowed:
+                        extra.append((len(kl) + len(kr), sorted(kl), sorted(kr), sorted(st.label - allowed)))
+                if undecided:
+                    break
+            d = {"expression": "Op", "opcode": opc, "configurations_evaluated": n, "missing_effects": len(missing), "unconditional_optional_effects": len(extra)}
+            if undecided:
+                chk.instance(rid, d, ok=None)
+                chk.fail_closed(rid, "Op::type_info could not be evaluated abstractly for `%s`: %s" % (opc, undecided))
+                continue
+            chk.instance(rid, d, ok=not missing and not extra)
+            if missing:
+                missing.sort()
+                _, kl, kr, ch = missing[0]
+                d["first_missing"] = {"lhs_kind": kl, "rhs_kind": kr, "child": ch}
+                chk.violation(rid, "src/compiler/expression/op.rs", OP_TYPE_INFO, "opcode %s: effects of %s not in the returned state" % (opc, "/".join(ch)),
+                              "`a %s b`: the %s operand is always evaluated, but the type state returned by Op::type_info does not contain its effects "
+                              "(e.g. `v = \"s\"; x = 10 %s (v = 2) ?? 0; upcase(v)` keeps typing v as a string); %d operand configurations affected"
+                              % (sym[opc], "right" if ch == ["rhs"] else "left", sym[opc], len(missing)), detail=d)
+            if extra:
+                extra.sort()
+                _, kl, kr, ch = extra[0]
+                d["first_extra"] = {"lhs_kind": kl, "rhs_kind": kr, "child": ch}
+                chk.violation(rid, "src/compiler/expression/op.rs", OP_TYPE_INFO, "opcode %s: effects of %s applied unconditionally" % (opc, "/".join(ch)),
+                              "`a %s b` with left kind %s: the right operand may not be evaluated, yet its effects are part of the returned type state without "
+                              "being merged with the state that skips it; %d operand configurations affected" % (sym[opc], "|".join(kl), len(extra)), detail=d)
+    if not facts.has(IF_TYPE_INFO):
+        chk.fail_closed(rid, "anchor not found: %s" % IF_TYPE_INFO)
+        return
+    for has_else in (True, False):
+        selfv = tinfo.Enum("compiler::expression::if_statement::IfStatement", None, {
+            "predicate": tinfo.Expr("predicate"), "if_block": tinfo.Expr("if_block"),
+            "else_block": tinfo.Enum("std::option::Option", "Some", {"0": tinfo.Expr("else_block")}) if has_else else tinfo.NONE})
+        d = {"expression": "IfStatement", "else": has_else}
+        try:
+            td, it = tinfo.evaluate_type_info(facts, IF_TYPE_INFO, selfv, {"predicate": tinfo.TD({"boolean"}), "if_block": tinfo.TD({"integer"}),
+                                                                          "else_block": tinfo.TD({"bytes"})})
+        except tinfo.Undecided as e:
+            chk.instance(rid, d, ok=None)
+            chk.fail_closed(rid, "IfStatement::type_info could not be evaluated abstractly: %s" % e)
+            continue
+        st = it.final_state
+        if not isinstance(st, tinfo.ST):
+            chk.instance(rid, d, ok=None)
+            chk.fail_closed(rid, "IfStatement::type_info: returned state is not tracked (%r)" % (st,))
+            continue
+        d["state_contains"] = sorted(st.label)
+        d["result_kind"] = sorted(td.kind)
+        problems = []
+        if "predicate" not in st.label:
+            problems.append("the predicate is always evaluated but its effects are not in the returned state")
+        for br in ("if_block", "else_block"):
+            if br in st.label:
+                problems.append("the effects of %s are in the returned state unconditionally" % br)
+        want = {"integer", "bytes"} if has_else else {"integer", "null"}
+        if not want <= td.kind:
+            problems.append("result kind %s does not contain %s" % (sorted(td.kind), sorted(want - td.kind)))
+        chk.instance(rid, d, ok=not problems)
+        if problems:
+            chk.violation(rid, "src/compiler/expression/if_statement.rs", IF_TYPE_INFO, "if%s: %s" % (" / else" if has_else else " without else", problems[0][:60]),
+                          "IfStatement::type_info (%s): %s" % ("with else" if has_else else "no else", "; ".join(problems)), detail=d)
+
+    # single-child expressions: the child is always evaluated
+    for ty, fields, child in (("compiler::expression::not::Not", {"inner": None}, "inner"),
+                              ("compiler::expression::group::Group", {"inner": None}, "inner"),
+                              ("compiler::expression::r#return::Return", {"span": tinfo.UNK, "expr": None}, "expr")):
+        name = "<%s as compiler::expression::Expression>::type_info" % ty
+        d = {"expression": ty.rsplit("::", 1)[1]}
+        if not facts.has(name):
+            chk.instance(rid, d, ok=None)
+            chk.fail_closed(rid, "anchor not found: %s" % name)
+            continue
+        selfv = tinfo.Enum(ty, None, {k: (tinfo.boxed(tinfo.Expr(k)) if v is None else v) for k, v in fields.items()})
+        try:
+            td, it = tinfo.evaluate_type_info(facts, name, selfv, {child: tinfo.TD({"boolean"}, True)})
+        except tinfo.Undecided as e:
+            chk.instance(rid, d, ok=None)
+            chk.fail_closed(rid, "%s::type_info could not be evaluated abstractly: %s" % (d["expression"], e))
+            continue
+        st = it.final_state
+        ok = isinstance(st, tinfo.ST) and child in st.label
+        d["state_contains"] = sorted(st.label) if isinstance(st, tinfo.ST) else None
+        chk.instance(rid, d, ok=ok)
+        if not ok:
+            chk.violation(rid, facts.body(name).file, name, "%s: effects of its operand not in the returned state" % d["expression"],
+                          "%s::type_info returns a type state that does not contain the effects of its (always evaluated) operand" % d["expression"], detail=d)
